@@ -8,12 +8,9 @@ from execlib import *
 
 def run_debug(args):
     path, script, timeout = args
-    try:
-        p = subprocess.run([HYEONG_BIN, "--color", "never", "debug", path], input=script.encode("utf-8"), stdout=subprocess.PIPE,
-                           stderr=subprocess.PIPE, timeout=timeout)
-        return p.stdout.decode("utf-8", "replace"), p.stderr.decode("utf-8", "replace"), p.returncode
-    except subprocess.TimeoutExpired as e:
-        return (e.stdout or b"").decode("utf-8", "replace"), "", "timeout"
+    p = run_capped([HYEONG_BIN, "--color", "never", "debug", path], input=script.encode("utf-8"), timeout=timeout, cap=1 << 22)
+    if p.returncode == "timeout": return p.stdout.decode("utf-8", "replace"), "", "timeout"
+    return p.stdout.decode("utf-8", "replace"), p.stderr.decode("utf-8", "replace"), p.returncode
 
 
 def rand_script(rng, n):
@@ -82,6 +79,10 @@ def main(tier, seed):
             outs = list(ex.map(run_debug, jobs))
         model = model_lines(ops, timeout=300, chunks=64)
         ends = {}; cmds = {}; skipped_long = 0
+        # loaded machine: sessions the model says end get one much longer retry before judging (in parallel, bounded)
+        again = [i for i, (o, m) in enumerate(zip(outs, model)) if o[2] == "timeout" and " " in m and not unjudged(m) and m.split(" ", 1)[1] != "hang"][:3 * NCPU]
+        with ThreadPoolExecutor(max_workers=NCPU) as ex:
+            for i, r in zip(again, ex.map(run_debug, [(jobs[i][0], jobs[i][1], 60) for i in again])): outs[i] = r
         for (src, script), (so, se, rc), m, job in zip(meta, outs, model, jobs):
             rep.count("debug-sessions")
             for w in script.split("\n"):
@@ -103,8 +104,6 @@ def main(tier, seed):
             elif mend == "hang": want_rc = "timeout"
             if mend.startswith("crash"):
                 rep.violation("obligation", {"what": "the model itself reaches a crash outcome (dbg_no_crash should exclude it)", "source": src, "script": script, "model_end": mend})
-            if rc == "timeout" and want_rc != "timeout":
-                so, se, rc = run_debug((job[0], script, 60))      # loaded machine: one much longer retry before judging
             if want_rc == "timeout":
                 # the model ran out of fuel (long or endless `run`): only the common prefix is comparable
                 skipped_long += 1
